@@ -10,7 +10,7 @@ where
 {
     move |s: Span<'a>| {
         #[cfg(sv_parser_verif)]
-        crate::verif::step(crate::verif::SITE_WS);
+        crate::verif::step_at(crate::verif::SITE_WS, s.location_offset());
         let (s, x) = f(s)?;
         let (s, y) = many0(white_space)(s)?;
         Ok((s, (x, y)))
@@ -25,7 +25,7 @@ where
 {
     move |s: Span<'a>| {
         #[cfg(sv_parser_verif)]
-        crate::verif::step(crate::verif::SITE_WS);
+        crate::verif::step_at(crate::verif::SITE_WS, s.location_offset());
         let (s, x) = f(s)?;
         Ok((s, (x, vec![])))
     }
@@ -394,7 +394,11 @@ thread_local!(
 
 pub(crate) fn begin_keywords(version: &str) {
     #[cfg(sv_parser_verif)]
-    crate::verif::step(crate::verif::SITE_KW_BEGIN);
+    crate::verif::step(if version == "directive" {
+        crate::verif::SITE_KW_BEGIN_DIRECTIVE
+    } else {
+        crate::verif::SITE_KW_BEGIN
+    });
     CURRENT_VERSION.with(|current_version| match version {
         "1364-1995" => current_version.borrow_mut().push(Version::Ieee1364_1995),
         "1364-2001" => current_version.borrow_mut().push(Version::Ieee1364_2001),
